@@ -107,7 +107,7 @@ PROPS["C20"] = dict(
             dict(name="export-crash", harness="export-crash", imports=["Export"], case_type="nat * bool * nat * list (bool * N)",
                  check="export_code", monitor="export_code", count_quick=60, count_thorough=600, nontrivial_bits=3, shrink=False),
             dict(name="udp-stats-worker", harness="udp-stats", imports=["StatsSysCheck"], case_type="stats_case",
-                 check="stats_code", monitor="stats_code", count_quick=2, count_thorough=16, nontrivial_bits=3, shrink=False,
+                 check="stats_code", monitor="stats_code", count_quick=3, count_thorough=16, nontrivial_bits=3, shrink=False,
                  crash_is_violation=True)],
     rule="udp-stats-worker: a RUNNING udp tracker (mio or io_uring, 1..2 socket workers) with statistics and cleaning every second, HTML report, per-client tallies: three phases of announces and stops from 6 peer ids of three client kinds over two torrents (a peer id in both torrents counts once); after each phase the report's torrent and peer totals and its client table are read back and compared with the reference; udp-swarm histories with statistics.peer_clients on in 2/3 of them, a statistics output enabled and exports written on every clean: "
          "the PeerAdded/PeerRemoved stream is read from the real statistics channel, totals from the SwarmWorkerStatistics atomics, the export "
